@@ -32,7 +32,13 @@ bool ObsOn(const std::string& prefix)
 
 void RegisterOp(const std::string& name, OpFn fn) { Ops()[name] = fn; }
 void RegisterCaseEnd(std::function<void()> fn) { CaseEnds().push_back(fn); }
-void Out(const std::string& line) { (*l_Out) << line << "\n"; }
+void Out(const std::string& line)
+{
+	(*l_Out) << line << "\n";
+	// a case may legitimately crash the process (C15): make sure the runner sees which case it was
+	if (line.compare(0, 5, "case ") == 0)
+		l_Out->flush();
+}
 std::string ScratchDir() { return l_Scratch; }
 long CaseId() { return l_Case; }
 
